@@ -11,3 +11,5 @@ git apply "$p"
 cd /verif && ./check "$id" "$@" 2>&1 | grep -E "^(VIOLATION|KNOWN|violation|harness)" | cut -c1-400 | head -6
 rc=$?
 cd /repo && git checkout -- . 
+# leave a simulator built against the clean tree behind
+(cd /verif/sim && CARGO_NET_OFFLINE=true cargo build --release --offline >/dev/null 2>&1)
